@@ -334,6 +334,27 @@ func H_Block() {
 		if ps == types.AuctionStatusStarted {
 			nd.Assert("C16.open-auction-publishes-no-matched-price", ba.MatchedPrice.IsZero())
 		}
+		// whichever branch settled the auction (no rounds left, or the rate rule): the published price is zero
+		// exactly when nothing was sold, and is what the winners were charged per coin (within one unit per bid)
+		if justSettled {
+			soldNow := nd.ZOf(0)
+			published := nd.ZDec(ba.MatchedPrice)
+			for u := 1; u <= sp.nUsers; u++ {
+				got := post.get(addr(user(u)), denomSell).Sub(pre.get(addr(user(u)), denomSell))
+				soldNow = soldNow.Add(got)
+				nMine, reservedMine := 0, nd.ZOf(0)
+				for _, b := range st.bids {
+					if b.Bidder == user(u) {
+						nMine++
+						reservedMine = reservedMine.Add(payAmtZ(b))
+					}
+				}
+				paidU := reservedMine.Sub(post.get(addr(user(u)), denomPay).Sub(pre.get(addr(user(u)), denomPay)))
+				nd.Assert("C16.block-published-price-is-paid-price", nd.Implies(got.IsPos(), nd.And(
+					paidU.Mul(zS()).GE(published.Mul(got)), paidU.Mul(zS()).LT(published.Mul(got).Add(zS().Mul(nd.ZOf(int64(nMine))))))))
+			}
+			nd.Assert("C16.block-published-price-zero-iff-nothing-sold", nd.Iff(published.IsZero(), soldNow.IsZero()))
+		}
 		round := uint32(sp.nEnd - 1)
 		if extended {
 			period := getParams(e).ExtendedPeriod
